@@ -2438,6 +2438,7 @@ def canonicalise(tree: ast.Module, rel: str = "") -> ast.Module:
             tree = _Canonical().visit(tree)
         canon.drop_fresh_widening_guards(tree, ref)
         canon.flatten_fresh_locks(tree, ref)
+        canon.restore_flag_masks(tree, ref)
         tree = _Canonical().visit(tree)
         canon.inline_fresh_helpers(tree, ref, protect_renames=True)
         canon.rename_fresh_members(tree, ref)
